@@ -1,3 +1,15 @@
+/-
+  Props/C02.lean — C02: every completed call yields exactly one faithful call trace.
+
+  Proved for the tracer's bookkeeping (the state machine of Model/Tracer.lean) for all event histories:
+  * locality: what the tracer does for one frame does not depend on the events of any other frame, however the frames
+    are nested or interleaved (`frame_locality`);
+  * lifecycle: a frame that is called, suspends any number of times (yields / awaits) and finishes by returning or raising
+    is logged exactly once, with the argument types of its *call* event, the union of exactly its yielded types (none for
+    a coroutine's awaits), the return type iff it returned, and leaves no per-call state (`lifecycle_logged_once`);
+  * composition: both together, for every frame of any history (`interleaved_frame_logged_once`).
+  Not proved (CPython's, observed): that a program's calls produce such event streams, and the opcode / flag classification.
+-/
 import MTVerif.Model.Tracer
 namespace MT.C02
 open MT MT.Tracer
@@ -5,5 +17,267 @@ open MT MT.Tracer
 /-- events of code the filter rejects never change the tracer -/
 theorem rejected_code_ignored (cfg : Cfg) (s : State) (e : Ev) (h : cfg.admits e.code = false) : step cfg s e = s := by
   cases e <;> simp [step, Ev.code] at h ⊢ <;> simp [h]
+
+/-! ### association-list facts -/
+
+theorem lookupT_eraseT_self (fid : FrameId) (m : List (FrameId × PTrace)) : lookupT fid (eraseT fid m) = none := by
+  induction m with
+  | nil => rfl
+  | cons x m ih =>
+    obtain ⟨f, t⟩ := x
+    simp only [eraseT]
+    split
+    · exact ih
+    · next h => simp only [lookupT, h]; exact ih
+
+theorem lookupT_eraseT_ne (fid g : FrameId) (h : g ≠ fid) (m : List (FrameId × PTrace)) :
+    lookupT fid (eraseT g m) = lookupT fid m := by
+  induction m with
+  | nil => rfl
+  | cons x m ih =>
+    obtain ⟨f, t⟩ := x
+    simp only [eraseT]
+    split
+    · next hf =>
+      have : f = g := by simpa using hf
+      subst this
+      simp only [lookupT]
+      have : (f == fid) = false := by simpa using h
+      simp [this, ih]
+    · simp only [lookupT, ih]
+
+theorem lookupT_setT_self (fid : FrameId) (t : PTrace) (m : List (FrameId × PTrace)) : lookupT fid (setT fid t m) = some t := by
+  simp [setT, lookupT]
+
+theorem lookupT_setT_ne (fid g : FrameId) (h : g ≠ fid) (t : PTrace) (m : List (FrameId × PTrace)) :
+    lookupT fid (setT g t m) = lookupT fid m := by
+  have : (g == fid) = false := by simpa using h
+  simp [setT, lookupT, this, lookupT_eraseT_ne fid g h]
+
+/-! ### locality -/
+
+/-- the part of the state that concerns frame `fid` -/
+def view (fid : FrameId) (s : State) : Option PTrace × List (FrameId × PTrace) :=
+  (lookupT fid s.traces, s.log.filter (fun x => x.1 == fid))
+
+theorem view_draws (fid : FrameId) (s : State) (d : List Nat) : view fid { s with draws := d } = view fid s := rfl
+
+theorem beginTrace_other (cfg : Cfg) (fid g : FrameId) (h : g ≠ fid) (s : State) (c : CodeId) (a : List (String × Ty)) :
+    view fid (beginTrace cfg s g c a) = view fid s := by
+  unfold beginTrace
+  split
+  · rfl
+  · split
+    · rfl
+    · simp only [view, lookupT_setT_ne fid g h]
+
+theorem beginTrace_same (cfg : Cfg) (fid : FrameId) (s s' : State) (c : CodeId) (a : List (String × Ty))
+    (hv : view fid s = view fid s') : view fid (beginTrace cfg s fid c a) = view fid (beginTrace cfg s' fid c a) := by
+  simp only [view, Prod.mk.injEq] at hv
+  unfold beginTrace
+  split
+  · simp only [view, hv.1, hv.2]
+  · rw [hv.1]
+    split
+    · simp only [view, hv.1, hv.2]
+    · simp only [view, lookupT_setT_self, hv.2]
+
+theorem endEvent_other (fid g : FrameId) (h : g ≠ fid) (s : State) (t : PTrace) (op : Op) (co : Bool) (ty : Ty) :
+    view fid (endEvent s g t op co ty) = view fid s := by
+  have hne : (g == fid) = false := by simpa using h
+  unfold endEvent
+  split
+  · split
+    · rfl
+    · simp only [view, lookupT_setT_ne fid g h]
+  · simp only [view, lookupT_eraseT_ne fid g h, List.filter_append, List.filter_cons, hne, List.filter_nil,
+      List.append_nil, Bool.false_eq_true, ↓reduceIte]
+
+theorem endEvent_same (fid : FrameId) (s s' : State) (t : PTrace) (op : Op) (co : Bool) (ty : Ty)
+    (hv : view fid s = view fid s') : view fid (endEvent s fid t op co ty) = view fid (endEvent s' fid t op co ty) := by
+  simp only [view, Prod.mk.injEq] at hv
+  unfold endEvent
+  split
+  · split
+    · simp only [view, hv.1, hv.2]
+    · simp only [view, lookupT_setT_self, hv.2]
+  · simp only [view, lookupT_eraseT_self, List.filter_append, hv.2]
+
+/-- an event of another frame does not touch frame `fid`'s entry nor the traces logged for it -/
+theorem step_other_frame (cfg : Cfg) (fid : FrameId) (s : State) (e : Ev) (h : e.fid ≠ fid) :
+    view fid (step cfg s e) = view fid s := by
+  cases e with
+  | other f c => rfl
+  | call f c r a =>
+    simp only [Ev.fid] at h
+    simp only [step]
+    split
+    · rfl
+    · split
+      · rfl
+      · split
+        · rfl
+        · rw [beginTrace_other cfg fid f h]; rfl
+  | ret f c op co sm ty =>
+    simp only [Ev.fid] at h
+    simp only [step]
+    split
+    · rfl
+    · split
+      · rfl
+      · exact endEvent_other fid f h s _ op co ty
+
+/-- without sampling, an event of frame `fid` acts on frame `fid`'s view only through that view -/
+theorem step_same_frame (cfg : Cfg) (hr : cfg.rate = none) (fid : FrameId) (s s' : State) (e : Ev) (h : e.fid = fid)
+    (hv : view fid s = view fid s') : view fid (step cfg s e) = view fid (step cfg s' e) := by
+  cases e with
+  | other f c => exact hv
+  | call f c r a =>
+    simp only [Ev.fid] at h; subst h
+    simp only [step, hr, sampleDraw]
+    split
+    · exact hv
+    · split
+      · exact hv
+      · simp only [Bool.false_eq_true, ↓reduceIte]
+        exact beginTrace_same cfg f _ _ c a hv
+  | ret f c op co sm ty =>
+    simp only [Ev.fid] at h; subst h
+    have hl : lookupT f s.traces = lookupT f s'.traces := by
+      simp only [view, Prod.mk.injEq] at hv; exact hv.1
+    simp only [step]
+    split
+    · exact hv
+    · rw [hl]
+      split
+      · exact hv
+      · exact endEvent_same f s s' _ op co ty hv
+
+/-- C02, "all nesting orders and interleavings": what is recorded for a frame is what would be recorded if that frame's
+    events were the only ones — for every history, with any other frames' events interleaved anywhere. -/
+theorem frame_locality (cfg : Cfg) (hr : cfg.rate = none) (fid : FrameId) (es : List Ev) :
+    ∀ s s' : State, view fid s = view fid s' →
+      view fid (es.foldl (step cfg) s) = view fid ((es.filter (fun e => e.fid == fid)).foldl (step cfg) s') := by
+  induction es with
+  | nil => intro s s' h; exact h
+  | cons e es ih =>
+    intro s s' h
+    simp only [List.foldl_cons, List.filter_cons]
+    by_cases he : e.fid = fid
+    · have : (e.fid == fid) = true := by simpa using he
+      simp only [this, ↓reduceIte, List.foldl_cons]
+      exact ih _ _ (step_same_frame cfg hr fid s s' e he h)
+    · have : (e.fid == fid) = false := by simpa using he
+      simp only [this, Bool.false_eq_true, ↓reduceIte]
+      exact ih _ _ ((step_other_frame cfg fid s e he).trans h)
+
+/-! ### one frame's life -/
+
+/-- a suspension of the frame (a `return` event with YIELD_VALUE) followed by its resumption -/
+def suspension (fid : FrameId) (c : CodeId) (coro : Bool) (ty : Ty) (args' : List (String × Ty)) : List Ev :=
+  [.ret fid c .yieldValue coro (if coro then .awaited else .yielded) ty, .call fid c true args']
+
+/-- call, any number of suspensions, final return / raise -/
+def lifecycle (fid : FrameId) (c : CodeId) (coro : Bool) (args : List (String × Ty))
+    (susp : List (Ty × List (String × Ty))) (finOp : Op) (finSem : Sem) (finTy : Ty) : List Ev :=
+  .call fid c false args :: (susp.flatMap (fun x => suspension fid c coro x.1 x.2)) ++ [.ret fid c finOp coro finSem finTy]
+
+/-- the union of the yielded types, built the way `add_yield_type` builds it -/
+def yieldsOf (coro : Bool) : Option Ty → List (Ty × List (String × Ty)) → Option Ty
+  | acc, [] => acc
+  | acc, (ty, _) :: rest =>
+      if coro then yieldsOf coro acc rest
+      else yieldsOf coro (some (match acc with | none => ty | some y => mkUnion [y, ty])) rest
+
+theorem susp_fold (cfg : Cfg) (fid : FrameId) (c : CodeId) (coro : Bool) (hadm : cfg.admits c = true)
+    (susp : List (Ty × List (String × Ty))) :
+    ∀ (s : State) (t : PTrace), lookupT fid s.traces = some t →
+      ∃ s', (susp.flatMap (fun x => suspension fid c coro x.1 x.2)).foldl (step cfg) s = s' ∧
+        lookupT fid s'.traces = some { t with yld := yieldsOf coro t.yld susp } ∧
+        s'.log = s.log := by
+  induction susp with
+  | nil => intro s t h; exact ⟨s, rfl, by simpa [yieldsOf] using h, rfl⟩
+  | cons x rest ih =>
+    intro s t h
+    obtain ⟨ty, args'⟩ := x
+    simp only [List.flatMap_cons, suspension, List.cons_append, List.nil_append, List.foldl_cons]
+    -- the yield event
+    have h1 : step cfg s (.ret fid c .yieldValue coro (if coro then .awaited else .yielded) ty) =
+        (if coro then s else { s with traces := setT fid (addYield t ty) s.traces }) := by
+      simp [step, hadm, h, endEvent]
+    rw [h1]
+    cases coro with
+    | true =>
+      simp only [↓reduceIte]
+      have h2 : step cfg s (.call fid c true args') = s := by simp [step, hadm]
+      rw [h2]
+      obtain ⟨s', hs', hl, hlog⟩ := ih s t h
+      exact ⟨s', hs', by simpa [yieldsOf] using hl, hlog⟩
+    | false =>
+      simp only [Bool.false_eq_true, ↓reduceIte]
+      have h2 : ∀ s0 : State, step cfg s0 (.call fid c true args') = s0 := by intro s0; simp [step, hadm]
+      rw [h2]
+      obtain ⟨s', hs', hl, hlog⟩ := ih { s with traces := setT fid (addYield t ty) s.traces } (addYield t ty)
+        (lookupT_setT_self fid _ _)
+      refine ⟨s', hs', ?_, hlog⟩
+      rw [hl]; rfl
+
+/-- C02 for one frame: a resolvable, admitted call that suspends any number of times and then finishes is logged exactly
+    once, with the argument types of its call event, the union of exactly the types it yielded (nothing for a coroutine's
+    awaits), its return type iff it returned (absent iff it raised), and afterwards the tracer holds nothing for it. -/
+theorem lifecycle_logged_once (cfg : Cfg) (hr : cfg.rate = none) (fid : FrameId) (c : CodeId) (f : FuncId) (coro : Bool)
+    (hadm : cfg.admits c = true) (hres : cfg.resolve c = some f)
+    (args : List (String × Ty)) (susp : List (Ty × List (String × Ty))) (finOp : Op) (finSem : Sem) (finTy : Ty)
+    (hfin : finOp ≠ .yieldValue) (s : State) (hfresh : lookupT fid s.traces = none) :
+    let s' := (lifecycle fid c coro args susp finOp finSem finTy).foldl (step cfg) s
+    s'.log = s.log ++ [(fid, { func := f, args := args,
+                               ret := if finOp = .retValue ∨ finOp = .retConst then some finTy else none,
+                               yld := yieldsOf coro none susp })] ∧
+    lookupT fid s'.traces = none := by
+  simp only [lifecycle, List.cons_append, List.foldl_cons, List.foldl_append, List.foldl_nil]
+  -- the call event creates the entry
+  have h0 : lookupT fid (step cfg s (.call fid c false args)).traces =
+      some { func := f, args := args, ret := none, yld := none } ∧ (step cfg s (.call fid c false args)).log = s.log := by
+    simp [step, hadm, hr, hres, hfresh, lookupT_setT_self, sampleDraw, beginTrace]
+  obtain ⟨s1, hs1, hl1, hlog1⟩ := susp_fold cfg fid c coro hadm susp _ _ h0.1
+  rw [hs1]
+  have hy : (finOp == Op.yieldValue) = false := by simpa using hfin
+  have hstep : step cfg s1 (.ret fid c finOp coro finSem finTy) =
+      endEvent s1 fid { func := f, args := args, ret := none, yld := yieldsOf coro none susp } finOp coro finTy := by
+    simp only [step, hadm, Bool.not_true, Bool.false_eq_true, ↓reduceIte, hl1]
+  rw [hstep]
+  simp only [endEvent, hy, Bool.false_eq_true, ↓reduceIte, lookupT_eraseT_self, and_true, hlog1, h0.2]
+  congr 2
+  by_cases h1 : finOp = .retValue
+  · simp [h1]
+  · by_cases h2 : finOp = .retConst
+    · simp [h2]
+    · simp [h1, h2]
+
+/-- C02 for every frame of every history: if the events of frame `fid`, wherever they sit among the events of other
+    frames, form one life (call, suspensions, finish), then exactly one trace is logged for it, faithful as above, and
+    the tracer keeps no state for it. -/
+theorem interleaved_frame_logged_once (cfg : Cfg) (hr : cfg.rate = none) (fid : FrameId) (c : CodeId) (f : FuncId)
+    (coro : Bool) (hadm : cfg.admits c = true) (hres : cfg.resolve c = some f)
+    (args : List (String × Ty)) (susp : List (Ty × List (String × Ty))) (finOp : Op) (finSem : Sem) (finTy : Ty)
+    (hfin : finOp ≠ .yieldValue) (es : List Ev) (draws : List Nat)
+    (hlife : es.filter (fun e => e.fid == fid) = lifecycle fid c coro args susp finOp finSem finTy) :
+    (run cfg draws es).log.filter (fun x => x.1 == fid) =
+      [(fid, { func := f, args := args,
+               ret := if finOp = .retValue ∨ finOp = .retConst then some finTy else none,
+               yld := yieldsOf coro none susp })] ∧
+    lookupT fid (run cfg draws es).traces = none := by
+  have hloc := frame_locality cfg hr fid es { traces := [], log := [], draws := draws } { traces := [], log := [], draws := draws } rfl
+  rw [hlife] at hloc
+  have hone := lifecycle_logged_once cfg hr fid c f coro hadm hres args susp finOp finSem finTy hfin
+    { traces := [], log := [], draws := draws } rfl
+  simp only [view, Prod.mk.injEq] at hloc
+  simp only [run]
+  rw [hloc.1, hloc.2, hone.1, hone.2]
+  simp
+
+/-! non-vacuity: a generator interleaved with a plain call -/
+example : (lifecycle 1 7 false [("a", .cls intC)] [(.cls intC, [("a", .cls strC)]), (.cls strC, [("a", .cls strC)])]
+    .retConst .returned (.cls noneC)).length = 6 := by decide
 
 end MT.C02
